@@ -261,7 +261,15 @@ def align_guard(db, ctx):
         raise AnchorMissing("CowArray::from_bytes: from_raw_parts")
     c, ps = frp[0]
     pcs = path_conditions(c["id"], f.hir) or []
-    ok = any(isinstance(cn, dict) and pol is True and mentions(cn, is_call_to("is_aligned")) for cn, pol in pcs)
+    from ..guards import eval3
+
+    def _unaligned(atom):
+        a = peel(atom)
+        if is_call(a) and path_ends(callee(a), "is_aligned"):
+            return False
+        return None
+    # the branch must be unreachable when the pointer is NOT aligned: the guard evaluates to false whatever the other atoms are
+    ok = any(isinstance(cn, dict) and pol is True and mentions(cn, is_call_to("is_aligned")) and eval3(cn, _unaligned) is False for cn, pol in pcs)
     ctx.ob("from_bytes|raw-under-is_aligned", ok, "slice::from_raw_parts is control-dependent on is_aligned(ptr, align_of::<T>()): %s" % ok, fn=f, site=c.get("sp"))
     cp = [(c2, p2) for c2, p2 in walk(f.hir) if is_call(c2) and path_ends(callee(c2), "copy_of_bytes")]
     ok2 = False
